@@ -37,6 +37,7 @@ class Ctx:
         self.analysed = {'units': set(), 'functions': set(), 'call_sites': 0, 'configs': []}
         self.notes = []
         self.floors = []
+        self._dedupe = set()
         self.selftest = {}
         self.trusted = ['clang 14 front end + CFG builder', 'jlsx exporter', 'python rule engines (jlsverif)',
                         'tables/exceptions.json']
@@ -57,6 +58,10 @@ class Ctx:
         (no line numbers); `where` is file:line for the report only."""
         if rid not in self.rules:
             raise KeyError('rule %s not declared' % rid)
+        dk = (rid, function, construct, where)
+        if dk in self._dedupe:
+            return ok
+        self._dedupe.add(dk)
         self.rules[rid]['n'] += 1
         if not ok:
             self.rules[rid]['failed'] += 1
